@@ -126,6 +126,10 @@ impl Run {
             .insert("violating_cases".into(), json!(self.violating_cases));
         self.coverage
             .insert("known_findings_hit".into(), json!(known_hit));
+        let audits = crate::det::AUDITS.load(std::sync::atomic::Ordering::Relaxed);
+        if audits > 0 {
+            self.coverage.insert("schedules_executed_twice_and_compared".into(), json!(audits));
+        }
         let ev = json!({
             "property_id": self.property,
             "tier": self.tier.as_str(),
